@@ -112,7 +112,7 @@ pub fn run(p: &Params) -> Run {
     }
     // the whole program: statement from raw text, every output format, lines spread over 1-3 files
     let mut erng = Rng::new(p.seed ^ 0x15e2e);
-    crate::e2e::perm_relation(&mut run, &mut erng, p.n(120, 2500), C04_DEF, &query, &|rng: &mut Rng| gen_typed_input(rng, false));
+    crate::e2e::perm_relation(&mut run, &mut erng, p.n(400, 4000), C04_DEF, &query, &|rng: &mut Rng| gen_typed_input(rng, false));
     run.notes.push("table with TEXT/INT/REAL/BOOLEAN/INTERVAL/TIMESTAMP columns; small INT arguments and REAL arguments whose sums/squares are exact; -0.0 and NaN excluded (they are equal to 0.0 / incomparable but print differently); 1 in 5 inputs has 40-150 lines in one or two groups with 17-65 distinct argument values; permutations: sorted, reversed, 2 shuffles; HAVING as boolean combinations with repeated aggregates".to_owned());
     run
 }
